@@ -3,6 +3,7 @@ from __future__ import annotations
 
 import functools
 import gzip
+import json
 import io
 import os
 import re
@@ -537,6 +538,21 @@ def declared_unit(kind, data: bytes) -> int:
     return 0
 
 
+def _lzma_probe_peak(data: bytes) -> int:
+    """tracemalloc peak of the standard library's own xz probe on `data`, without any dissect code involved."""
+    import lzma
+
+    tracemalloc.start()
+    try:
+        try:
+            lzma.LZMAFile(io.BytesIO(data)).read(512)  # exactly what tarfile.open(mode="r") does for its "xz" method
+        except (lzma.LZMAError, EOFError, MemoryError, OSError):
+            pass
+        return tracemalloc.get_traced_memory()[1]
+    finally:
+        tracemalloc.stop()
+
+
 def check(spec) -> Outcome:
     out = Outcome()
     sname = spec["seed"]
@@ -606,6 +622,10 @@ def check(spec) -> Outcome:
         tracemalloc.stop()
     where = sname if "field" not in spec else f"{sname}"
     if isinstance(err, MemoryError) or peak > limit:
+        if kind == "vmtar" and "cycle" not in spec and _lzma_probe_peak(mutated) > limit:
+            # the allocation happens inside the standard library's xz/lzma probe of tarfile.open(mode="r"), before any
+            # vmtar code runs: its own signature, so that it can be listed as a finding without hiding other vmtar failures
+            where += "|stdlib-lzma-probe"
         out.fail(f"memory|{where}", f"peak {peak} bytes traced (limit {limit}) for a {inp_len}-byte input, request {REQ}; "
                                     f"{type(err).__name__ if err else 'no exception'}; spec field={spec.get('field')}")
     if cpu > 8.0:
@@ -638,6 +658,11 @@ def extra_campaign(tier, seed, workdir, max_par):
     results = {}
     stats = {"fuzz_executions": 0, "fuzz_new_units": 0, "fuzz_targets": len(FUZZ_SEEDS), "fuzz_runs_per_target": runs}
 
+    def env_for_worker():
+        e = dict(os.environ, PYTHONHASHSEED="0", PYTHONDONTWRITEBYTECODE="1")
+        e["PYTHONPATH"] = os.path.dirname(here) + os.pathsep + e.get("PYTHONPATH", "")
+        return e
+
     def start(name):
         d = os.path.join(workdir, "fuzz-" + name)
         os.makedirs(d, exist_ok=True)
@@ -667,8 +692,23 @@ def extra_campaign(tier, seed, workdir, max_par):
                 a = arts[0]
                 kindname = os.path.basename(a).split("-")[0]
                 raw = open(a, "rb").read()
-                results[f"fuzz|{name}|{kindname}"] = {"count": len(arts), "size": len(raw), "message": f"libFuzzer reported {kindname} on a {len(raw)}-byte input; " + text[-300:].replace("\n", " "),
-                                                       "spec": {"seed": name, "ops": [], "raw_b64": base64.b64encode(raw).decode()}}
+                fspec = {"seed": name, "ops": [], "raw_b64": base64.b64encode(raw).decode()}
+                sig = f"fuzz|{name}|{kindname}"
+                msg = f"libFuzzer reported {kindname} on a {len(raw)}-byte input; " + text[-300:].replace("\n", " ")
+                # classify the input with the regular oracle (its signature is what KNOWN_FINDINGS.txt is matched against)
+                rp = os.path.join(d, "artifact.json")
+                with open(rp, "w") as f:
+                    json.dump({"property": "C11", "spec": fspec}, f)
+                rout = os.path.join(d, "replay.out.json")
+                subprocess.run([_sys.executable, "-m", "hv.worker", "replay", "C11", tier, str(seed), "0", "1", rout, json.dumps({"files": [rp]})],
+                               env=env_for_worker(), cwd=os.path.dirname(here), capture_output=True)
+                try:
+                    per = json.load(open(rout))["per_file"][rp]
+                    if per:
+                        sig, msg = per[0]["sig"], per[0]["message"] + " (input found by the coverage-guided campaign)"
+                except (OSError, KeyError, ValueError):
+                    pass
+                results[sig] = {"count": len(arts), "size": len(raw), "message": msg, "spec": fspec}
             elif p.returncode not in (0,) and not arts:
                 results[f"fuzz-harness|{name}"] = {"count": 1, "size": 0, "message": "fuzz process failed without artifact: " + text[-400:], "spec": None, "harness": True}
         procs = still
